@@ -405,3 +405,31 @@ PROPS["C13"] = dict(
     assumptions=["names are mapped to root-relative paths by get_native_path as characterised in C12"],
     unproved=["rename and remove-directory: the full post-state (moved subtree / removed subtree) is only checked against the model by the fs engine, not stated as a theorem"],
 )
+
+PROPS["C01"] = dict(
+    title="A file reported as delivered is byte-identical to the source file",
+    module="Cfdp.Props.C01",
+    namespace="Cfdp.Loop",
+    theorems=["C01_delivered_is_source", "good_recvStep", "Cfdp.Recv.fin_core", "Cfdp.Recv.dataOk_complete", "Cfdp.Recv.writeAt_get"],
+    engines=["recv", "send", "seg", "cksum"],
+    design="§6 C01",
+    technique="Lean 4 invariant proof over all event histories of the receiver model (staging-file content, segment list, filestore), using C09, C04, C13, C18 + differential correspondence",
+    level_text=("Kernel-checked: let the link deliver - in any order, with any losses and duplications, interleaved with timer expirations, transmissions and user requests - only "
+                "PDUs of a transfer of the file src (data PDUs carrying the bytes of src at the offsets they claim, NoError EOFs announcing its length; any metadata, any other "
+                "PDUs). Then after every such history, if the receiver's record says file status Retained and delivery code Complete - what its Finished indication and "
+                "Finished PDU report - the file under the destination name is exactly src, in both modes, for every configuration and fault handler "
+                "(C01_delivered_is_source; for transactions carrying filestore requests the statement is about the filestore as the copy left it, before the requests ran: "
+                "fin_core). The invariant: wherever the segment list says data is held the staging file agrees with src and it never extends beyond src (writeAt_get: exact "
+                "semantics of seek+write incl. zero-filled holes; merge_cov from C09), completeness = every byte of [0, size) covered makes the staging file equal to src "
+                "(dataOk_complete), Retained is only recorded after the whole staging file was written under the destination name, and once the transaction has left "
+                "ReceiveData file, status and delivery code never change again (C04). A truncated, holed or stale file cannot be reported Complete: C18_complete_means_complete. "
+                "The sender reports Complete only on the receiver's word (C04_sender). Tie to the code: recv engine (staging-file handle, segment list and the full directory "
+                "listing with content digests compared after every call; oracle delivered_equals_source reads the real destination file), send engine, seg, cksum engines."),
+    level_note=RECV_SEND_NOTE + " Identity does not rest on the checksum when the sender is truthful; corrupted PDUs are the subject of C15 (CRC) and C14 (checksum); "
+               "'cross-wired' files between transactions are C11.",
+    rule=("recv engine as in C04 (contents: linear, all-zero and checksum-neutral patterns; sizes 0, 1, seg-1, seg, seg+1, 3 seg, 3 seg+5; both modes, closure, immediate/deferred, "
+          "delay, CRC, Modular/Null checksum; loss, duplication, reordering, re-segmentation, wrong checksums, short EOFs) + send, seg, cksum engines. "
+          "Oracles delivered_equals_source, complete_without_data. Non-trivial = a PDU was emitted or an indication raised."),
+    assumptions=["the PDUs delivered belong to a transfer of one fixed file src (hypothesis TruthfulEv); what a link may do to them is unrestricted"],
+    unproved=["two-party statement (sender model composed with receiver model over a lossy link): the sender's PDUs are truthful by C07, the composition itself is exercised by the daemon engine"],
+)
